@@ -2,7 +2,9 @@
 Model of `Render` of /repo/lang/render/render.go (C12, the Wuffs formatter) over the
 token model of `Model/FmtToken.lean`, function by function, for the REPAIRED code
 (fixes/C12-render-comment-only-file.patch: a source of nothing but comments is no
-longer rendered as the empty file).  `appendNum` lives in `Model/Render.lean`.
+longer rendered as the empty file; fixes/C12-render-number-not-retokenizable.patch: a
+numeric literal whose re-grouped text would be too long, or the legacy octal `01`, is
+kept as it is).  `appendNum` lives in `Model/Render.lean`.
 Core Lean only.
 -/
 import WuffsVerif.Model.FmtToken
@@ -76,10 +78,24 @@ def measureVarNameLength (lineTokens remaining : List Tok) : Nat :=
     | some t0, some tn => measureLoop x (remaining.length + 1) t0.line tn.text.length remaining
     | _, _ => 0
 
-/-- text of a token as `Render` writes it (numbers through `appendNum`) -/
+/-- the repaired `Render`'s test on `appendNum`'s result `g`: `token.Tokenize` would not read it
+back — longer than `maxTokenSize`, or a "0" directly followed by a digit (`0_1` regrouped to the
+legacy octal `01`) -/
+def numNotRetokenizable (g : Bytes) : Bool :=
+  g.length > maxTokenSize ||
+  (match g with
+   | 48 :: d :: _ => 48 ≤ d && d ≤ 57
+   | _ => false)
+
+/-- text of a token as `Render` writes it (numbers through `appendNum`, unless the re-grouped
+literal would not tokenize again: fixes/C12-render-number-not-retokenizable.patch) -/
 def tokText (t : Tok) : Bytes :=
   match t.text with
-  | c :: _ => if c < 48 || 57 < c then t.text else appendNum t.text
+  | c :: _ =>
+    if c < 48 || 57 < c then t.text
+    else
+      let g := appendNum t.text
+      if numNotRetokenizable g then t.text else g
   | [] => []
 
 structure LineAcc where
